@@ -19,7 +19,7 @@ def fsmOf : String → Option Fsm
   | "Stopping" => some .stopping | "Stopped" => some .stopped | "Error" => some .error | _ => none
 
 def internal (_ : St) : List Act :=
-  [.runEnter, .runToRunning, .runSelCtx, .runSelStop, .runSelErr, .runToStopping, .runStopBegin, .runStopEnd, .runFinish,
+  [.runEnter, .runBootFail, .runToRunning, .runSelCtx, .runSelStop, .runSelErr, .runToStopping, .runStopBegin, .runStopEnd, .runFinish,
    .rlEnter, .rlAfterCb, .rlDecide, .rlStopBegin, .rlStopEnd, .rlSetConfig, .rlBoot, .rlChildReload, .rlFinish]
 
 /-- an observation that changes nothing in the model -/
